@@ -3,7 +3,7 @@
  * checks/c13.py; this file only observes.
  *
  * history := op (' ' op)*      op := of,<ns> | od,<ns> | c,<x>,<ns> | u,<call>,<x>,<ns>
- *   of / od  path_open of file "f" / directory "sub" below the pre-open (descriptor 3)
+ *   of / od  path_open of file "f" / directory "sub" below the pre-open (descriptor 3)      om  path_open of the missing name "zz" (fails)
  *   c        fd_close(x)
  *   u        one descriptor-taking call on x (as file descriptor or as directory handle)
  */
@@ -17,7 +17,8 @@
 #include "wasi.h"
 
 enum { P_F = 0x100, P_SUB = 0x110, P_ZZ = 0x120, P_YY = 0x130, P_T = 0x140, IOV = 0x200, BUF = 0x300, RES = 0x400, STAT = 0x500,
-       NAME = 0x800, DIRBUF = 0x1000 };
+       NAME = 0x800, DIRBUF = 0x1000, ABSF = 0x3000, ABSSUB = 0x3400, ABSZZ = 0x3800 };
+static U32 absFLen, absSubLen, absZzLen;
 
 /* pipes that stand in for the host's stdout / stderr while a guest write to 1 / 2 is executed */
 static int hostPipe[3], hostPipeW[3], saved[3];
@@ -34,6 +35,10 @@ static void setup(void) {
     snprintf(p, sizeof p, "%s/f", a); hx_write_file(p, "hello");
     snprintf(p, sizeof p, "%s/sub", a); hx_mkdir(p);
     snprintf(p, sizeof p, "%s/sub/e", a); hx_write_file(p, "x");
+    /* the same objects named by ABSOLUTE guest paths (used as they are, but the directory descriptor must still be valid) */
+    snprintf(p, sizeof p, "%s/f", a); absFLen = strlen(p); hx_put(ABSF, p, absFLen);
+    snprintf(p, sizeof p, "%s/sub", a); absSubLen = strlen(p); hx_put(ABSSUB, p, absSubLen);
+    snprintf(p, sizeof p, "%s/zz", a); absZzLen = strlen(p); hx_put(ABSZZ, p, absZzLen);
     for (k = 1; k <= 2; k++) {
         int fds[2];
         if (pipe2(fds, O_NONBLOCK) != 0) _exit(72);
@@ -86,6 +91,11 @@ static U32 use(const char* c, U32 x, int ns, char* det, size_t cap) {
     else if (!strcmp(c, "fd_filestat_get")) { e = NS(ns, fd_filestat_get)(I, x, STAT); if (!e) snprintf(det, cap, "filetype=%u", hx_mem.data[STAT + 16]); }
     else if (!strcmp(c, "path_open")) { e = NS(ns, path_open)(I, x, 1, P_F, 1, 0, rd, 0, 0, RES); if (!e) snprintf(det, cap, "fd=%u", hx_u32(RES)); }
     else if (!strcmp(c, "path_filestat_get")) { e = NS(ns, path_filestat_get)(I, x, 1, P_F, 1, STAT); if (!e) snprintf(det, cap, "filetype=%u", hx_mem.data[STAT + 16]); }
+    else if (!strcmp(c, "path_open_abs")) { e = NS(ns, path_open)(I, x, 1, ABSF, absFLen, 0, rd, 0, 0, RES); if (!e) snprintf(det, cap, "fd=%u", hx_u32(RES)); }
+    else if (!strcmp(c, "path_filestat_get_abs")) { e = NS(ns, path_filestat_get)(I, x, 1, ABSF, absFLen, STAT); if (!e) snprintf(det, cap, "filetype=%u", hx_mem.data[STAT + 16]); }
+    else if (!strcmp(c, "path_create_directory_abs")) e = NS(ns, path_create_directory)(I, x, ABSSUB, absSubLen);
+    else if (!strcmp(c, "path_readlink_abs")) e = NS(ns, path_readlink)(I, x, ABSZZ, absZzLen, BUF, 16, RES);
+    else if (!strcmp(c, "path_unlink_file_abs")) e = NS(ns, path_unlink_file)(I, x, ABSZZ, absZzLen);
     else if (!strcmp(c, "path_rename_old")) e = NS(ns, path_rename)(I, x, P_ZZ, 2, 3, P_YY, 2);
     else if (!strcmp(c, "path_rename_new")) e = NS(ns, path_rename)(I, 3, P_ZZ, 2, x, P_YY, 2);
     else if (!strcmp(c, "path_unlink_file")) e = NS(ns, path_unlink_file)(I, x, P_ZZ, 2);
@@ -123,6 +133,12 @@ static void run(char* history) {
         } else if (!strcmp(f[0], "od") && nf == 2) {
             int ns = atoi(f[1]);
             e = NS(ns, path_open)(I, 3, 1, P_SUB, 3, TW_O_DIRECTORY, TW_RIGHT_FD_READDIR | TW_RIGHT_FD_FILESTAT_GET, 0, 0, RES);
+            if (!e) snprintf(det, sizeof det, "fd=%u", hx_u32(RES));
+        } else if (!strcmp(f[0], "om") && nf == 2) {
+            /* a path_open that fails after path resolution: "zz" does not exist and CREAT is not given */
+            int ns = atoi(f[1]);
+            name = "path_open_missing";
+            e = NS(ns, path_open)(I, 3, 1, P_ZZ, 2, 0, tw_rights(1), 0, 0, RES);
             if (!e) snprintf(det, sizeof det, "fd=%u", hx_u32(RES));
         } else if (!strcmp(f[0], "c") && nf == 3) {
             e = NS(atoi(f[2]), fd_close)(I, (U32)strtoul(f[1], 0, 10));
